@@ -151,6 +151,11 @@ def check(case, ctx) -> Result:
         trig = next((e for e in resp["trace"] if e[0] == "ev" and e[3] == "sink" and isinstance(e[7], dict) and "loop" in e[7]), None)
         if trig is not None and trig[7]["loop"][0]:
             ph_t = next((s_["ph"] for s_ in sends if s_["v"] == case["loopback"]["on"]), 3)
+            # the harness drains phases 1-3 by waiting for the producers' values; the looped-back send happens in the cycle
+            # that delivers its trigger, so the run is known to "continue long enough" for it only when a later producer
+            # send of phases 1-3 started after it had completed (that one is drained, and the queue is FIFO)
+            if not any(s_["ok"] and s_["ph"] <= 3 and s_["sb"] > trig[7]["loop"][2] for s_ in sends):
+                ph_t = 4
             accepted[7777] = {"p": -2, "v": 7777, "ph": ph_t, "sb": trig[7]["loop"][1], "sa": trig[7]["loop"][2], "ok": True}
             res.labels.append("send_from_evaluation_thread")
     if latch_info and latch_info["ok"]:
